@@ -65,6 +65,7 @@ def explore(model: Model, acc: core.Acc, max_depth: int, *, max_states: int = 0,
     depth_done = 0
 
     def work(hists: list) -> core.Acc:
+        gc.freeze()   # everything allocated so far is permanent: explicit gc.collect() steps of a model stay cheap
         out = core.Acc()
         new: list = []
         ntrans = 0
@@ -91,7 +92,7 @@ def explore(model: Model, acc: core.Acc, max_depth: int, *, max_states: int = 0,
         return out
 
     for depth in range(1, max_depth + 1):
-        shards = list(core.chunked(frontier, chunk))
+        shards = list(core.chunked(frontier, max(1, min(chunk, len(frontier) // (3 * core.workers()) + 1))))
         tmp = core.Acc()
         complete = core.par_map(work, shards, tmp, deadline=deadline)
         transitions += tmp.counters.pop('_transitions', 0)
